@@ -67,7 +67,9 @@ fn specs(tier: Tier) -> Vec<CorpusSpec> {
         }
     }
     // larger corpora with patterns
-    let big: Vec<(usize, &str)> = tier.pick(vec![(5, "all"), (5, "alt"), (21, "all"), (40, "21of40")], vec![(5, "first"), (5, "last"), (21, "all"), (21, "alt"), (21, "none"), (40, "all"), (40, "21of40"), (40, "first"), (40, "last")]);
+    // 120 / 200 frames: beyond the floor of any candidate budget expressed in "frames" (the
+    // property's domain is 1..200 frames)
+    let big: Vec<(usize, &str)> = tier.pick(vec![(5, "all"), (5, "alt"), (21, "all"), (40, "21of40"), (120, "every20th")], vec![(5, "first"), (5, "last"), (21, "all"), (21, "alt"), (21, "none"), (40, "all"), (40, "21of40"), (40, "first"), (40, "last"), (120, "every20th"), (200, "every20th"), (200, "last")]);
     let big_lens: Vec<usize> = tier.pick(vec![60], vec![12, 60, 200]);
     for (n, pat) in big {
         for &l in &big_lens {
@@ -79,6 +81,7 @@ fn specs(tier: Tier) -> Vec<CorpusSpec> {
                     "first" => (i == 0) as usize,
                     "last" => (i == n - 1) as usize,
                     "21of40" => (i < 21) as usize,
+                    "every20th" => (i % 20 == 7) as usize,
                     _ => 0,
                 })
                 .collect();
@@ -100,7 +103,7 @@ pub fn run_c09(tier: Tier, replay_path: Option<String>) -> i32 {
         "C09",
         tier,
         "exploration",
-        "corpora of n documents (n in {1,2,3,(5)} with the query word planted in every subset; n in {5,21,40} with patterns all/alternate/first/last/21-of-40; mixed lengths; a text-less binary frame before or between the documents), each document = 3/12/60/200 distinct pseudo-words (long ones move the SimHash away from the one-word query), planted once or three times far apart; searched with top_k = k and k+3, with and without the sketch pre-filter, after commit and after close+open (corpora ingested with and without the instant index); oracle: hit frame ids include every planted frame whenever k <= top_k; non-trivial = corpus with >= 1 planted document; distinct = distinct (corpus, stage, query)",
+        "corpora of n documents (n in {1,2,3,(5)} with the query word planted in every subset; n in {5,21,40,120,200} with patterns all/alternate/first/last/21-of-40/every-20th; mixed lengths; a text-less binary frame before or between the documents), each document = 3/12/60/200 distinct pseudo-words (long ones move the SimHash away from the one-word query), planted once or three times far apart; searched with top_k = k and k+3, with and without the sketch pre-filter, after commit and after close+open (corpora ingested with and without the instant index); oracle: hit frame ids include every planted frame whenever k <= top_k; non-trivial = corpus with >= 1 planted document; distinct = distinct (corpus, stage, query)",
     );
     let specs = specs(tier);
     let mut cases = Vec::new();
